@@ -1,8 +1,41 @@
 /-
   DDS.Proofs.GenStoreDecode — the REGENERATED generic bin decoder of the stores
   (`DDS/Generated/CodeStoreDecode.lean`, translated from `store.DecodeAndMergeWith`,
-  /repo/ddsketch/store/store.go:90, on every run) agrees with the HAND-WRITTEN model
-  `DDS.Sketch.decodeStore` (`DDS/Model/Sketch.lean`), for all inputs, with explicit fuel.
+  /repo/ddsketch/store/store.go:90, on every run; three loops over the regenerated codecs of
+  `DDS/Generated/CodeEncoding.lean`) agrees with the HAND-WRITTEN model `DDS.Sketch.decodeStore`
+  (`DDS/Model/Sketch.lean`), for all inputs, with explicit fuel.
+
+  Conventions (as in `GenEncoding`): the generated code works on `b : List (BitVec 8)`, the model on
+  `nb b : List Nat`; a model remainder `rest` comes back as `bn rest`.  The model's sub-flag number `sub`
+  (`Wire.flagSub` of the flag byte, `< 64`) is Go's `subflag sub = newSubFlag sub`
+  (`Flag_SubFlag_subflag`: `f.SubFlag() = subflag (flagSub f)`).  The store is the model's `Store` through
+  `instance : StoreI Store` of `GenSketch`.
+
+  §1  `DecodeVarfloat64_eq` (fuel ≥ 9): the regenerated varfloat decoder IS `Codec.decVarfloat64` (was
+      missing from `GenEncoding`); never `.panic` / `.nofuel`.
+  §3  `storeIndexes sub bs` — the indexes the model hands to the store; `NoWrap sub bs` — all of them in
+      `[-2^63, 2^63)`.
+  §4  `loop1_spec / loop2_spec / loop3_spec` — the three loops against `decItems dcItem / dItem / ccItem`.
+  §6  main theorems, all with fuel `len(b) + 9` (every item consumes ≥ 1 byte or fails, so the loop ends by
+      `io.EOF` after ≤ `len(b) + 1` iterations even when `numBins` is `2^64 − 1`):
+        `DecodeAndMergeWith_ok`        model `some (.ok (st', rest))` ∧ `NoWrap` ⟹ `.ok (st', bn rest, nil)`
+        `DecodeAndMergeWith_ok_bytes`  … without `NoWrap`: still `.ok (_, bn rest, nil)` (same bytes consumed)
+        `DecodeAndMergeWith_error`     model `some (.error e)` ⟹ `.ok (_, _, io.EOF)` with `e = .eof` (defined
+                                       layout), or `.ok (st, b, "unknown bin encoding")` with
+                                       `e = .unknownBinEncoding`; no hypothesis on the indexes
+        `DecodeAndMergeWith_unknown`, `DecodeAndMergeWith_agrees` (the two halves in one statement)
+      model `none` (a store operation of the model panics, or a count is not finite): nothing claimed,
+      except §8.
+  §7  THE DOCUMENTED DIFFERENCE, `wrap_counterexample`: Go accumulates the index in `int64` with wrap-around,
+      the model in `Int`.  Two deltas of `2^62`: the model adds bins `2^62, 2^63`, the Go code `2^62, −2^63`.
+      `NoWrap` is exactly what excludes this (`BitVec.ofInt 64 idx` is Go's index unconditionally).
+      Observation `eof_after_partial_merge_example`: on `io.EOF` the Go store has already absorbed the bins
+      read before the cut (the model's error carries no store, so this is not a disagreement).
+  §8  `DecodeAndMergeWith_total`: for EVERY `StoreI` implementation and every input the generated decoder
+      returns normally with fuel `len(b) + 9`; the error is nil, `io.EOF` or "unknown bin encoding".
+
+  Property-level corollaries (C07 / C08 on the generated decoder): `DDS/Props/C07Gen.lean`.
+  No other disagreement was found: same success/failure, same bytes consumed, same error class.
 -/
 import DDS.Generated.CodeStoreDecode
 import DDS.Proofs.GenEncoding
@@ -151,26 +184,1018 @@ theorem varfloat_value (v : Nat) :
   rw [show W64 = 2 ^ 64 from rfl, ← h, ofNat_toNat_u64]
   rfl
 
-/-- **`DecodeVarfloat64`** is the model's decoder: eof leaves the input untouched (value 0), success
-    returns the model's float and the corresponding suffix.  Never `.panic` / `.nofuel`. -/
+/-- the value the generated decoder builds from the accumulated word (kept folded: unfolding it in
+    `simp` makes Lean evaluate `float64bits 1` symbolically) -/
+def vfG (x : BitVec 64) : F64 := F64.sub (GoSem.float64frombits ((GoSem.rotateLeft64 x (-6 : Int))
+        + (GoSem.float64bits (F64.fin (1 : Rat))))) (F64.fin (1 : Rat))
+
+theorem vfG_eq (v : Nat) : vfG (BitVec.ofNat 64 v) = Wire.vfValue (vfUnword (v % W64)) :=
+  varfloat_value v
+
+theorem DecodeVarfloat64_loop_eq (fuel : Nat) (hf : 9 ≤ fuel) (b : List (BitVec 8)) :
+    DecodeVarfloat64 fuel b = match decVF 8 57 0 (nb b) with
+        | .error _ => .ok (b, F64.fin (0 : Rat), GoErr.eof)
+        | .ok (v, rest) => .ok (suffixOf b rest, vfG (BitVec.ofNat 64 v), GoErr.nil) := by
+  have h := decVarfloat64_loop vfG 8 fuel b 0#64 0 (by decide) hf (Nat.dvd_zero _)
+  exact h
+
+/-- **`DecodeVarfloat64`** is the model's decoder `Codec.decVarfloat64`: eof leaves the input untouched
+    (value 0), success returns the model's float and the corresponding suffix of the input.
+    Never `.panic` / `.nofuel`. -/
 theorem DecodeVarfloat64_eq (fuel : Nat) (hf : 9 ≤ fuel) (b : List (BitVec 8)) :
-    DecodeVarfloat64 fuel b = decRes b (F64.fin (0 : Rat)) id (decVarfloat64 (nb b)) := by
-  unfold DecodeVarfloat64
-  have h := decVarfloat64_loop
-    (fun x => F64.sub (GoSem.float64frombits ((GoSem.rotateLeft64 x (-6 : Int))
-        + (GoSem.float64bits (F64.fin (1 : Rat))))) (F64.fin (1 : Rat)))
-    8 fuel b 0#64 0 (by decide) hf (by simp)
-  simp only [Nat.mul_zero, Int.natCast_zero, List.drop_zero, BitVec.toNat_ofNat, Nat.zero_mod,
-    Nat.sub_zero] at h
-  show Loop.elim (DecodeVarfloat64.loop1 b fuel 0#64 0 57#64) _ = _
-  rw [h]
-  unfold decVarfloat64 decVarfloatBits
-  rw [maxVarLen64_pred]
+    DecodeVarfloat64 fuel b = match decVarfloat64 (nb b) with
+      | .error _ => .ok (b, F64.fin (0 : Rat), GoErr.eof)
+      | .ok (c, rest) => .ok (suffixOf b rest, c, GoErr.nil) := by
+  rw [DecodeVarfloat64_loop_eq fuel hf]
   cases hd : decVF 8 57 0 (nb b) with
-  | error e => rfl
+  | error e =>
+    rw [DDS.Sketch.decVarfloat64_of_error _ _ (decVarfloatBits_of_error _ _ hd)]
   | ok p =>
     obtain ⟨v, rest⟩ := p
-    simp only [decRes, id]
-    rw [varfloat_value]
+    rw [DDS.Sketch.decVarfloat64_of_ok _ _ _ (decVarfloatBits_of_ok _ _ _ hd)]
+    show Res.ok (suffixOf b rest, vfG (BitVec.ofNat 64 v), GoErr.nil)
+      = Res.ok (suffixOf b rest, Wire.vfValue _, GoErr.nil)
+    rw [vfG_eq]
+
+/-! ## 2. the three codecs, in the form the loops use them
+
+  success: the generated decoder returns a slice `b'` whose bytes are the model's rest, strictly shorter
+  than its input; failure: `(input, zero value, io.EOF)`. -/
+
+open DDS.Sketch
+
+theorem strict_drop (b : List (BitVec 8)) (rest : Bytes) (k : Nat) (hk : 1 ≤ k)
+    (hr : rest = (nb b).drop k) (hne : b ≠ []) :
+    nb (suffixOf b rest) = rest ∧ (suffixOf b rest).length < b.length := by
+  subst hr
+  have h1 := nb_suffixOf_drop b k
+  refine ⟨h1, ?_⟩
+  have h2 : (suffixOf b ((nb b).drop k)).length = ((nb b).drop k).length := by
+    rw [← nb_length, h1]
+  rw [h2, List.length_drop, nb_length]
+  have := List.length_pos_iff.mpr hne
+  omega
+
+theorem U_ok (fuel : Nat) (hf : 9 ≤ fuel) (b : List (BitVec 8)) (v : Nat) (rest : Bytes)
+    (h : decUvarint64 (nb b) = .ok (v, rest)) :
+    ∃ b', DecodeUvarint64 fuel b = .ok (b', BitVec.ofNat 64 v, GoErr.nil) ∧ nb b' = rest ∧
+      b'.length < b.length ∧ v < W64 := by
+  obtain ⟨k, hk1, _, hk3, hv⟩ := decUvarint64_ok _ _ _ h
+  have hne : b ≠ [] := by
+    rintro rfl
+    simp [decUvarint64, decU] at h
+  obtain ⟨h1, h2⟩ := strict_drop b rest k hk1 hk3 hne
+  refine ⟨suffixOf b rest, ?_, h1, h2, hv⟩
+  rw [DecodeUvarint64_eq fuel hf, h]; rfl
+
+theorem U_err (fuel : Nat) (hf : 9 ≤ fuel) (b : List (BitVec 8)) (e : DecErr)
+    (h : decUvarint64 (nb b) = .error e) :
+    DecodeUvarint64 fuel b = .ok (b, 0#64, GoErr.eof) := DecodeUvarint64_eof fuel hf b e h
+
+theorem decVarint64_inv (bs : Bytes) (d : Int) (rest : Bytes) (h : decVarint64 bs = .ok (d, rest)) :
+    ∃ u, decUvarint64 bs = .ok (u, rest) := by
+  unfold decVarint64 at h
+  cases hd : decUvarint64 bs with
+  | error e => rw [hd] at h; cases h
+  | ok p =>
+    obtain ⟨u, r⟩ := p
+    rw [hd] at h
+    simp only [Except.ok.injEq, Prod.mk.injEq] at h
+    exact ⟨u, by rw [h.2]⟩
+
+theorem V_ok (fuel : Nat) (hf : 9 ≤ fuel) (b : List (BitVec 8)) (d : Int) (rest : Bytes)
+    (h : decVarint64 (nb b) = .ok (d, rest)) :
+    ∃ b', DecodeVarint64 fuel b = .ok (b', BitVec.ofInt 64 d, GoErr.nil) ∧ nb b' = rest ∧
+      b'.length < b.length ∧ I64 d := by
+  obtain ⟨u, hu⟩ := decVarint64_inv _ _ _ h
+  obtain ⟨k, hk1, _, hk3, _⟩ := decUvarint64_ok _ _ _ hu
+  have hne : b ≠ [] := by
+    rintro rfl
+    simp [decUvarint64, decU] at hu
+  obtain ⟨h1, h2⟩ := strict_drop b rest k hk1 hk3 hne
+  refine ⟨suffixOf b rest, ?_, h1, h2, decVarint64_range _ _ _ h⟩
+  rw [DecodeVarint64_eq fuel hf, h]; rfl
+
+theorem V_err (fuel : Nat) (hf : 9 ≤ fuel) (b : List (BitVec 8)) (e : DecErr)
+    (h : decVarint64 (nb b) = .error e) :
+    DecodeVarint64 fuel b = .ok (b, 0#64, GoErr.eof) := by
+  rw [DecodeVarint64_eq fuel hf, h]; rfl
+
+theorem decVarfloat64_inv (bs : Bytes) (c : F64) (rest : Bytes) (h : decVarfloat64 bs = .ok (c, rest)) :
+    ∃ k, 1 ≤ k ∧ rest = bs.drop k := by
+  unfold decVarfloat64 at h
+  split at h
+  · rename_i u r heq
+    simp only [Except.ok.injEq, Prod.mk.injEq] at h
+    obtain ⟨k, hk, _, hr⟩ := decVarfloatBits_ok _ _ _ heq
+    exact ⟨k, hk, by rw [← h.2, hr]⟩
+  · simp at h
+
+theorem F_ok (fuel : Nat) (hf : 9 ≤ fuel) (b : List (BitVec 8)) (c : F64) (rest : Bytes)
+    (h : decVarfloat64 (nb b) = .ok (c, rest)) :
+    ∃ b', DecodeVarfloat64 fuel b = .ok (b', c, GoErr.nil) ∧ nb b' = rest ∧ b'.length < b.length := by
+  obtain ⟨k, hk1, hk3⟩ := decVarfloat64_inv _ _ _ h
+  have hne : b ≠ [] := by
+    rintro rfl
+    simp [decVarfloat64, decVarfloatBits, decVF] at h
+  obtain ⟨h1, h2⟩ := strict_drop b rest k hk1 hk3 hne
+  refine ⟨suffixOf b rest, ?_, h1, h2⟩
+  rw [DecodeVarfloat64_eq fuel hf, h]
+
+theorem F_err (fuel : Nat) (hf : 9 ≤ fuel) (b : List (BitVec 8)) (e : DecErr)
+    (h : decVarfloat64 (nb b) = .error e) :
+    DecodeVarfloat64 fuel b = .ok (b, F64.fin (0 : Rat), GoErr.eof) := by
+  rw [DecodeVarfloat64_eq fuel hf, h]
+
+/-! ## 3. the indexes handed to the store, and the no-wrap hypothesis
+
+  The Go code keeps the running index in an `int64` (`index += indexDelta`, wrap-around) and hands
+  `int(index)` to the store; the model adds in unbounded `Int`.  `BitVec.ofInt 64` of the model's index IS
+  the Go index at every step (unconditionally); the value handed to the store is the same integer exactly
+  when the model's index lies in the int64 range. -/
+
+/-- layout "index deltas and counts": the indexes the model passes to the store, in order, until the
+    items or the parsable input run out -/
+def dcTrace : Nat → Int → Bytes → List Int
+  | 0, _, _ => []
+  | n + 1, idx, bs =>
+    match decVarint64 bs with
+    | .error _ => []
+    | .ok (d, bs1) =>
+      match decVarfloat64 bs1 with
+      | .error _ => []
+      | .ok (_, bs2) => (idx + d) :: dcTrace n (idx + d) bs2
+
+/-- layout "index deltas" -/
+def dTrace : Nat → Int → Bytes → List Int
+  | 0, _, _ => []
+  | n + 1, idx, bs =>
+    match decVarint64 bs with
+    | .error _ => []
+    | .ok (d, bs1) => (idx + d) :: dTrace n (idx + d) bs1
+
+/-- layout "contiguous counts" -/
+def ccTrace (stride : Int) : Nat → Int → Bytes → List Int
+  | 0, _, _ => []
+  | n + 1, idx, bs =>
+    match decVarfloat64 bs with
+    | .error _ => []
+    | .ok (_, bs1) => idx :: ccTrace stride n (idx + stride) bs1
+
+/-- every index `decodeStore st sub bs` passes to the store (independent of the store) -/
+def storeIndexes (sub : Nat) (bs : Bytes) : List Int :=
+  if sub = Consts.binEncodingIndexDeltasAndCounts then
+    match decUvarint64 bs with
+    | .error _ => []
+    | .ok (n, bs) => dcTrace n 0 bs
+  else if sub = Consts.binEncodingIndexDeltas then
+    match decUvarint64 bs with
+    | .error _ => []
+    | .ok (n, bs) => dTrace n 0 bs
+  else if sub = Consts.binEncodingContiguousCounts then
+    match decUvarint64 bs with
+    | .error _ => []
+    | .ok (n, bs) =>
+      match decVarint64 bs with
+      | .error _ => []
+      | .ok (start, bs) =>
+        match decVarint64 bs with
+        | .error _ => []
+        | .ok (stride, bs) => ccTrace stride n start bs
+  else []
+
+/-- **the hypothesis under which Go's `int64` running index and the model's `Int` agree**: every index
+    handed to the store (every partial sum of the deltas; `start + k·stride` for the contiguous layout)
+    lies in `[-2^63, 2^63)` -/
+def NoWrap (sub : Nat) (bs : Bytes) : Prop := ∀ u ∈ storeIndexes sub bs, I64 u
+
+theorem toInt_ofInt_I64 (i : Int) (h : I64 i) : (BitVec.ofInt 64 i).toInt = i := by
+  obtain ⟨h1, h2⟩ := h
+  rw [BitVec.toInt_ofInt]
+  simp only [Int.bmod]
+  omega
+
+theorem decItems_err {item} (n : Nat) (st : Store) (idx : Int) (bs : Bytes) (e : SkErr)
+    (h : item st idx bs = some (.error e)) : decItems item (n + 1) st idx bs = some (.error e) := by
+  simp only [decItems, h]
+
+theorem decItems_none {item} (n : Nat) (st : Store) (idx : Int) (bs : Bytes)
+    (h : item st idx bs = none) : decItems item (n + 1) st idx bs = none := by
+  simp only [decItems, h]
+
+theorem decItems_ok {item} (n : Nat) (st : Store) (idx : Int) (bs : Bytes) (st' : Store) (idx' : Int)
+    (bs' : Bytes) (h : item st idx bs = some (.ok (st', idx', bs'))) :
+    decItems item (n + 1) st idx bs = decItems item n st' idx' bs' := by
+  simp only [decItems, h]
+
+theorem hnil : (GoErr.nil != GoErr.nil) = false := by decide
+theorem heof : (GoErr.eof != GoErr.nil) = true := by decide
+
+theorem ult_of_lt (i n : BitVec 64) (h : i.toNat < n.toNat) : BitVec.ult i n = true := by
+  rw [BitVec.ult_eq_decide]; simpa using h
+theorem ult_of_eq (i n : BitVec 64) (h : n.toNat = i.toNat) : BitVec.ult i n = false := by
+  rw [BitVec.ult_eq_decide]; simp [h]
+
+theorem toNat_succ (i n : BitVec 64) (k : Nat) (h : n.toNat = i.toNat + (k + 1)) :
+    n.toNat = (i + 1#64).toNat + k := by
+  have := n.isLt
+  rw [BitVec.toNat_add]
+  simp only [BitVec.toNat_ofNat]
+  omega
+
+/-! ## 4. the three loops -/
+
+/-- loop of the layout "index deltas and counts" against `decItems dcItem`.  The control flow and the bytes
+    depend on the input only (any store `s`, any `index`); the resulting store is the model's when the loop
+    starts from the model's store and index and no index handed to the store wraps. -/
+theorem loop1_spec (numBins : BitVec 64) : ∀ (n fuel : Nat) (b : List (BitVec 8)) (index : BitVec 64)
+    (s : Store) (i : BitVec 64) (st : Store) (idx : Int),
+    numBins.toNat = i.toNat + n → b.length + 10 ≤ fuel →
+    (∀ e, decItems dcItem n st idx (nb b) = some (.error e) →
+      e = .eof ∧ ∃ s' b', DecodeAndMergeWith.loop1 numBins fuel b index s i = .ret (s', b', GoErr.eof)) ∧
+    (∀ st' rest, decItems dcItem n st idx (nb b) = some (.ok (st', rest)) →
+      ∃ s' index' i', DecodeAndMergeWith.loop1 numBins fuel b index s i = .done (bn rest, index', s', i') ∧
+        (s = st → index = BitVec.ofInt 64 idx → (∀ u ∈ dcTrace n idx (nb b), I64 u) → s' = st')) := by
+  intro n
+  induction n with
+  | zero =>
+    intro fuel b index s i st idx hn hf
+    obtain ⟨fuel, rfl⟩ : ∃ f, fuel = f + 1 := ⟨fuel - 1, by omega⟩
+    have hu := ult_of_eq i numBins (by omega)
+    refine ⟨fun e h => ?_, fun st' rest h => ?_⟩
+    · simp [decItems] at h
+    · simp only [decItems, Option.some.injEq, Except.ok.injEq, Prod.mk.injEq] at h
+      refine ⟨s, index, i, ?_, fun hs _ _ => by rw [hs, h.1]⟩
+      simp only [DecodeAndMergeWith.loop1, hu, Bool.false_eq_true, if_false]
+      rw [← h.2, bn_nb]
+  | succ n ih =>
+    intro fuel b index s i st idx hn hf
+    obtain ⟨fuel, rfl⟩ : ∃ f, fuel = f + 1 := ⟨fuel - 1, by omega⟩
+    have hf9 : 9 ≤ fuel := by omega
+    have hu := ult_of_lt i numBins (by omega)
+    cases hV : decVarint64 (nb b) with
+    | error e1 =>
+      have hm := decItems_err n st idx (nb b) _
+        (dcItem_of_err1 st idx (nb b) _ (sk_liftDec_of_error _ _ hV))
+      have hl : DecodeAndMergeWith.loop1 numBins (fuel + 1) b index s i = .ret (s, b, GoErr.eof) := by
+        simp only [DecodeAndMergeWith.loop1, hu, if_true, V_err fuel hf9 b e1 hV, Res.bindL_ok, heof]
+      rw [hm]
+      refine ⟨fun e h => ?_, fun st' rest h => by simp at h⟩
+      simp only [Option.some.injEq, Except.error.injEq] at h
+      exact ⟨h.symm, s, b, hl⟩
+    | ok p1 =>
+      obtain ⟨d, r1⟩ := p1
+      obtain ⟨b1, hV1, hb1, hl1, hd⟩ := V_ok fuel hf9 b d r1 hV
+      cases hF : decVarfloat64 r1 with
+      | error e2 =>
+        have hm := decItems_err n st idx (nb b) _
+          (dcItem_of_err2 st idx (nb b) r1 d _ (sk_liftDec_of_ok _ _ hV) (sk_liftDec_of_error _ _ hF))
+        have hl : DecodeAndMergeWith.loop1 numBins (fuel + 1) b index s i = .ret (s, b1, GoErr.eof) := by
+          simp only [DecodeAndMergeWith.loop1, hu, if_true, hV1, Res.bindL_ok, hnil, Bool.false_eq_true,
+            if_false, F_err fuel hf9 b1 e2 (by rw [hb1]; exact hF), heof]
+        rw [hm]
+        refine ⟨fun e h => ?_, fun st' rest h => by simp at h⟩
+        simp only [Option.some.injEq, Except.error.injEq] at h
+        exact ⟨h.symm, s, b1, hl⟩
+      | ok p2 =>
+        obtain ⟨c, r2⟩ := p2
+        obtain ⟨b2, hF1, hb2, hl2⟩ := F_ok fuel hf9 b1 c r2 (by rw [hb1]; exact hF)
+        have hit := dcItem_of_ok st idx (nb b) r1 r2 d c (sk_liftDec_of_ok _ _ hV) (sk_liftDec_of_ok _ _ hF)
+        have hl : DecodeAndMergeWith.loop1 numBins (fuel + 1) b index s i
+            = DecodeAndMergeWith.loop1 numBins fuel b2 (index + BitVec.ofInt 64 d)
+                (StoreI.AddWithCount s (BitVec.toInt (index + BitVec.ofInt 64 d)) c) (i + 1#64) := by
+          simp only [DecodeAndMergeWith.loop1, hu, if_true, hV1, Res.bindL_ok, hnil, Bool.false_eq_true,
+            if_false, hF1]
+        cases hadd : addF st (idx + d) c with
+        | none =>
+          rw [hadd] at hit
+          rw [decItems_none n st idx (nb b) hit]
+          exact ⟨fun e h => by simp at h, fun st' rest h => by simp at h⟩
+        | some st1 =>
+          rw [hadd] at hit
+          rw [decItems_ok n st idx (nb b) st1 (idx + d) r2 hit, hl, ← hb2]
+          obtain ⟨ih1, ih2⟩ := ih fuel b2 (index + BitVec.ofInt 64 d)
+            (StoreI.AddWithCount s (BitVec.toInt (index + BitVec.ofInt 64 d)) c) (i + 1#64) st1 (idx + d)
+            (toNat_succ i numBins n hn) (by omega)
+          refine ⟨ih1, fun st' rest h => ?_⟩
+          obtain ⟨s', index', i', h1, h2⟩ := ih2 st' rest h
+          refine ⟨s', index', i', h1, fun hs hi ht => ?_⟩
+          have htr : dcTrace (n + 1) idx (nb b) = (idx + d) :: dcTrace n (idx + d) (nb b2) := by
+            simp only [dcTrace, hV, hF, hb2]
+          rw [htr] at ht
+          have hi' : index + BitVec.ofInt 64 d = BitVec.ofInt 64 (idx + d) := by
+            rw [hi, BitVec.ofInt_add]
+          apply h2
+          · rw [hi', toInt_ofInt_I64 _ (ht _ (List.mem_cons_self ..)), hs]
+            exact GenSketch.store_addF_some st st1 (idx + d) c hadd
+          · exact hi'
+          · exact fun u hu => ht u (List.mem_cons_of_mem _ hu)
+
+/-- loop of the layout "index deltas" against `decItems dItem` -/
+theorem loop2_spec (numBins : BitVec 64) : ∀ (n fuel : Nat) (b : List (BitVec 8)) (index : BitVec 64)
+    (s : Store) (i : BitVec 64) (st : Store) (idx : Int),
+    numBins.toNat = i.toNat + n → b.length + 10 ≤ fuel →
+    (∀ e, decItems dItem n st idx (nb b) = some (.error e) →
+      e = .eof ∧ ∃ s' b', DecodeAndMergeWith.loop2 numBins fuel b index s i = .ret (s', b', GoErr.eof)) ∧
+    (∀ st' rest, decItems dItem n st idx (nb b) = some (.ok (st', rest)) →
+      ∃ s' index' i', DecodeAndMergeWith.loop2 numBins fuel b index s i = .done (bn rest, index', s', i') ∧
+        (s = st → index = BitVec.ofInt 64 idx → (∀ u ∈ dTrace n idx (nb b), I64 u) → s' = st')) := by
+  intro n
+  induction n with
+  | zero =>
+    intro fuel b index s i st idx hn hf
+    obtain ⟨fuel, rfl⟩ : ∃ f, fuel = f + 1 := ⟨fuel - 1, by omega⟩
+    have hu := ult_of_eq i numBins (by omega)
+    refine ⟨fun e h => ?_, fun st' rest h => ?_⟩
+    · simp [decItems] at h
+    · simp only [decItems, Option.some.injEq, Except.ok.injEq, Prod.mk.injEq] at h
+      refine ⟨s, index, i, ?_, fun hs _ _ => by rw [hs, h.1]⟩
+      simp only [DecodeAndMergeWith.loop2, hu, Bool.false_eq_true, if_false]
+      rw [← h.2, bn_nb]
+  | succ n ih =>
+    intro fuel b index s i st idx hn hf
+    obtain ⟨fuel, rfl⟩ : ∃ f, fuel = f + 1 := ⟨fuel - 1, by omega⟩
+    have hf9 : 9 ≤ fuel := by omega
+    have hu := ult_of_lt i numBins (by omega)
+    cases hV : decVarint64 (nb b) with
+    | error e1 =>
+      have hm := decItems_err n st idx (nb b) _
+        (dItem_of_err st idx (nb b) _ (sk_liftDec_of_error _ _ hV))
+      have hl : DecodeAndMergeWith.loop2 numBins (fuel + 1) b index s i = .ret (s, b, GoErr.eof) := by
+        simp only [DecodeAndMergeWith.loop2, hu, if_true, V_err fuel hf9 b e1 hV, Res.bindL_ok, heof]
+      rw [hm]
+      refine ⟨fun e h => ?_, fun st' rest h => by simp at h⟩
+      simp only [Option.some.injEq, Except.error.injEq] at h
+      exact ⟨h.symm, s, b, hl⟩
+    | ok p1 =>
+      obtain ⟨d, r1⟩ := p1
+      obtain ⟨b1, hV1, hb1, hl1, hd⟩ := V_ok fuel hf9 b d r1 hV
+      have hit := dItem_of_ok st idx (nb b) r1 d (sk_liftDec_of_ok _ _ hV)
+      have hl : DecodeAndMergeWith.loop2 numBins (fuel + 1) b index s i
+          = DecodeAndMergeWith.loop2 numBins fuel b1 (index + BitVec.ofInt 64 d)
+              (StoreI.Add s (BitVec.toInt (index + BitVec.ofInt 64 d))) (i + 1#64) := by
+        simp only [DecodeAndMergeWith.loop2, hu, if_true, hV1, Res.bindL_ok, hnil, Bool.false_eq_true,
+          if_false]
+      cases hadd : st.addWithCount (idx + d) 1 with
+      | none =>
+        rw [hadd] at hit
+        rw [decItems_none n st idx (nb b) hit]
+        exact ⟨fun e h => by simp at h, fun st' rest h => by simp at h⟩
+      | some st1 =>
+        rw [hadd] at hit
+        rw [decItems_ok n st idx (nb b) st1 (idx + d) r1 hit, hl, ← hb1]
+        obtain ⟨ih1, ih2⟩ := ih fuel b1 (index + BitVec.ofInt 64 d)
+          (StoreI.Add s (BitVec.toInt (index + BitVec.ofInt 64 d))) (i + 1#64) st1 (idx + d)
+          (toNat_succ i numBins n hn) (by omega)
+        refine ⟨ih1, fun st' rest h => ?_⟩
+        obtain ⟨s', index', i', h1, h2⟩ := ih2 st' rest h
+        refine ⟨s', index', i', h1, fun hs hi ht => ?_⟩
+        have htr : dTrace (n + 1) idx (nb b) = (idx + d) :: dTrace n (idx + d) (nb b1) := by
+          simp only [dTrace, hV, hb1]
+        rw [htr] at ht
+        have hi' : index + BitVec.ofInt 64 d = BitVec.ofInt 64 (idx + d) := by
+          rw [hi, BitVec.ofInt_add]
+        apply h2
+        · rw [hi', toInt_ofInt_I64 _ (ht _ (List.mem_cons_self ..)), hs]
+          exact GenSketch.store_add_some st st1 (idx + d) hadd
+        · exact hi'
+        · exact fun u hu => ht u (List.mem_cons_of_mem _ hu)
+
+/-- loop of the layout "contiguous counts" against `decItems (ccItem stride)`: the index is used first and
+    incremented afterwards, so the increment past the last bin may wrap without being seen -/
+theorem loop3_spec (numBins : BitVec 64) (indexDelta : BitVec 64) (stride : Int) :
+    ∀ (n fuel : Nat) (b : List (BitVec 8)) (s : Store) (index : BitVec 64)
+    (i : BitVec 64) (st : Store) (idx : Int),
+    numBins.toNat = i.toNat + n → b.length + 10 ≤ fuel →
+    (∀ e, decItems (ccItem stride) n st idx (nb b) = some (.error e) →
+      e = .eof ∧ ∃ s' b',
+        DecodeAndMergeWith.loop3 numBins indexDelta fuel b s index i = .ret (s', b', GoErr.eof)) ∧
+    (∀ st' rest, decItems (ccItem stride) n st idx (nb b) = some (.ok (st', rest)) →
+      ∃ s' index' i',
+        DecodeAndMergeWith.loop3 numBins indexDelta fuel b s index i = .done (bn rest, s', index', i') ∧
+        (s = st → index = BitVec.ofInt 64 idx → indexDelta = BitVec.ofInt 64 stride →
+          (∀ u ∈ ccTrace stride n idx (nb b), I64 u) → s' = st')) := by
+  intro n
+  induction n with
+  | zero =>
+    intro fuel b s index i st idx hn hf
+    obtain ⟨fuel, rfl⟩ : ∃ f, fuel = f + 1 := ⟨fuel - 1, by omega⟩
+    have hu := ult_of_eq i numBins (by omega)
+    refine ⟨fun e h => ?_, fun st' rest h => ?_⟩
+    · simp [decItems] at h
+    · simp only [decItems, Option.some.injEq, Except.ok.injEq, Prod.mk.injEq] at h
+      refine ⟨s, index, i, ?_, fun hs _ _ _ => by rw [hs, h.1]⟩
+      simp only [DecodeAndMergeWith.loop3, hu, Bool.false_eq_true, if_false]
+      rw [← h.2, bn_nb]
+  | succ n ih =>
+    intro fuel b s index i st idx hn hf
+    obtain ⟨fuel, rfl⟩ : ∃ f, fuel = f + 1 := ⟨fuel - 1, by omega⟩
+    have hf9 : 9 ≤ fuel := by omega
+    have hu := ult_of_lt i numBins (by omega)
+    cases hF : decVarfloat64 (nb b) with
+    | error e1 =>
+      have hm := decItems_err n st idx (nb b) _
+        (ccItem_of_err stride st idx (nb b) _ (sk_liftDec_of_error _ _ hF))
+      have hl : DecodeAndMergeWith.loop3 numBins indexDelta (fuel + 1) b s index i
+          = .ret (s, b, GoErr.eof) := by
+        simp only [DecodeAndMergeWith.loop3, hu, if_true, F_err fuel hf9 b e1 hF, Res.bindL_ok, heof]
+      rw [hm]
+      refine ⟨fun e h => ?_, fun st' rest h => by simp at h⟩
+      simp only [Option.some.injEq, Except.error.injEq] at h
+      exact ⟨h.symm, s, b, hl⟩
+    | ok p1 =>
+      obtain ⟨c, r1⟩ := p1
+      obtain ⟨b1, hF1, hb1, hl1⟩ := F_ok fuel hf9 b c r1 hF
+      have hit := ccItem_of_ok stride st idx (nb b) r1 c (sk_liftDec_of_ok _ _ hF)
+      have hl : DecodeAndMergeWith.loop3 numBins indexDelta (fuel + 1) b s index i
+          = DecodeAndMergeWith.loop3 numBins indexDelta fuel b1
+              (StoreI.AddWithCount s (BitVec.toInt index) c) (index + indexDelta) (i + 1#64) := by
+        simp only [DecodeAndMergeWith.loop3, hu, if_true, hF1, Res.bindL_ok, hnil, Bool.false_eq_true,
+          if_false]
+      cases hadd : addF st idx c with
+      | none =>
+        rw [hadd] at hit
+        rw [decItems_none n st idx (nb b) hit]
+        exact ⟨fun e h => by simp at h, fun st' rest h => by simp at h⟩
+      | some st1 =>
+        rw [hadd] at hit
+        rw [decItems_ok n st idx (nb b) st1 (idx + stride) r1 hit, hl, ← hb1]
+        obtain ⟨ih1, ih2⟩ := ih fuel b1 (StoreI.AddWithCount s (BitVec.toInt index) c)
+          (index + indexDelta) (i + 1#64) st1 (idx + stride)
+          (toNat_succ i numBins n hn) (by omega)
+        refine ⟨ih1, fun st' rest h => ?_⟩
+        obtain ⟨s', index', i', h1, h2⟩ := ih2 st' rest h
+        refine ⟨s', index', i', h1, fun hs hi hdl ht => ?_⟩
+        have htr : ccTrace stride (n + 1) idx (nb b) = idx :: ccTrace stride n (idx + stride) (nb b1) := by
+          simp only [ccTrace, hF, hb1]
+        rw [htr] at ht
+        apply h2
+        · rw [hi, toInt_ofInt_I64 _ (ht _ (List.mem_cons_self ..)), hs]
+          exact GenSketch.store_addF_some st st1 idx c hadd
+        · rw [hi, hdl, BitVec.ofInt_add]
+        · exact hdl
+        · exact fun u hu => ht u (List.mem_cons_of_mem _ hu)
+
+/-! ## 5. `DecodeAndMergeWith`, layout by layout -/
+
+theorem ofNat64_toNat (n : Nat) (h : n < W64) : (BitVec.ofNat 64 n).toNat = (0#64).toNat + n := by
+  rw [BitVec.toNat_ofNat, Nat.mod_eq_of_lt (show n < 2 ^ 64 from h)]; simp
+
+theorem beq11 : (BinEncodingIndexDeltasAndCounts == BinEncodingIndexDeltasAndCounts) = true := by decide
+theorem beq21 : (BinEncodingIndexDeltas == BinEncodingIndexDeltasAndCounts) = false := by decide
+theorem beq22 : (BinEncodingIndexDeltas == BinEncodingIndexDeltas) = true := by decide
+theorem beq31 : (BinEncodingContiguousCounts == BinEncodingIndexDeltasAndCounts) = false := by decide
+theorem beq32 : (BinEncodingContiguousCounts == BinEncodingIndexDeltas) = false := by decide
+theorem beq33 : (BinEncodingContiguousCounts == BinEncodingContiguousCounts) = true := by decide
+
+/-- what the three layout theorems say: an error of the model is `io.EOF` in the generated code (whatever
+    the store did meanwhile); a success of the model is a success of the generated code on the same bytes,
+    with the model's store provided no index wrapped -/
+def Agrees (st : Store) (sub : Nat) (b : List (BitVec 8))
+    (r : Res (Store × List (BitVec 8) × GoErr)) : Prop :=
+  (∀ e, decodeStore st sub (nb b) = some (.error e) → e = .eof ∧ ∃ s' b', r = .ok (s', b', GoErr.eof)) ∧
+  (∀ st' rest, decodeStore st sub (nb b) = some (.ok (st', rest)) →
+    ∃ s', r = .ok (s', bn rest, GoErr.nil) ∧ (NoWrap sub (nb b) → s' = st'))
+
+theorem layout1 (st : Store) (b : List (BitVec 8)) (fuel : Nat) (hf : b.length + 9 ≤ fuel) :
+    Agrees st Consts.binEncodingIndexDeltasAndCounts b
+      (DecodeAndMergeWith fuel st b BinEncodingIndexDeltasAndCounts) := by
+  have hf9 : 9 ≤ fuel := by omega
+  cases hU : decUvarint64 (nb b) with
+  | error e1 =>
+    have hm := decodeStore_err1 st (.deltasCounts []) (nb b) _ (sk_liftDec_of_error _ _ hU)
+    refine ⟨fun e h => ?_, fun st' rest h => ?_⟩
+    · rw [show Consts.binEncodingIndexDeltasAndCounts = Wire.payloadSub (.deltasCounts []) from rfl, hm] at h
+      simp only [Option.some.injEq, Except.error.injEq] at h
+      refine ⟨h.symm, st, b, ?_⟩
+      simp only [DecodeAndMergeWith, beq11, if_true, U_err fuel hf9 b e1 hU, Res.bind_ok, heof]
+    · rw [show Consts.binEncodingIndexDeltasAndCounts = Wire.payloadSub (.deltasCounts []) from rfl, hm] at h
+      simp at h
+  | ok p =>
+    obtain ⟨n, r⟩ := p
+    obtain ⟨b1, hU1, hb1, hl1, hv⟩ := U_ok fuel hf9 b n r hU
+    have hm := decodeStore_dc_ok st (nb b) r n (sk_liftDec_of_ok _ _ hU)
+    obtain ⟨l1, l2⟩ := loop1_spec (BitVec.ofNat 64 n) n fuel b1 0#64 st 0#64 st 0
+      (ofNat64_toNat n hv) (by omega)
+    rw [hb1] at l1 l2
+    refine ⟨fun e h => ?_, fun st' rest h => ?_⟩
+    · rw [hm] at h
+      obtain ⟨he, s', b', hl⟩ := l1 e h
+      refine ⟨he, s', b', ?_⟩
+      simp only [DecodeAndMergeWith, beq11, if_true, hU1, Res.bind_ok, hnil, Bool.false_eq_true, if_false,
+        hl, Loop.elim_ret]
+    · rw [hm] at h
+      obtain ⟨s', index', i', hl, hc⟩ := l2 st' rest h
+      refine ⟨s', ?_, fun hw => hc rfl rfl ?_⟩
+      · simp only [DecodeAndMergeWith, beq11, if_true, hU1, Res.bind_ok, hnil, Bool.false_eq_true, if_false,
+          hl, Loop.elim_done]
+      · have : storeIndexes Consts.binEncodingIndexDeltasAndCounts (nb b) = dcTrace n 0 r := by
+          simp only [storeIndexes, if_true, hU]
+        unfold NoWrap at hw
+        rw [this] at hw
+        exact hw
+
+theorem layout2 (st : Store) (b : List (BitVec 8)) (fuel : Nat) (hf : b.length + 9 ≤ fuel) :
+    Agrees st Consts.binEncodingIndexDeltas b
+      (DecodeAndMergeWith fuel st b BinEncodingIndexDeltas) := by
+  have hf9 : 9 ≤ fuel := by omega
+  cases hU : decUvarint64 (nb b) with
+  | error e1 =>
+    have hm := decodeStore_err1 st (.deltas []) (nb b) _ (sk_liftDec_of_error _ _ hU)
+    refine ⟨fun e h => ?_, fun st' rest h => ?_⟩
+    · rw [show Consts.binEncodingIndexDeltas = Wire.payloadSub (.deltas []) from rfl, hm] at h
+      simp only [Option.some.injEq, Except.error.injEq] at h
+      refine ⟨h.symm, st, b, ?_⟩
+      simp only [DecodeAndMergeWith, beq21, beq22, Bool.false_eq_true, if_false, if_true,
+        U_err fuel hf9 b e1 hU, Res.bind_ok, heof]
+    · rw [show Consts.binEncodingIndexDeltas = Wire.payloadSub (.deltas []) from rfl, hm] at h
+      simp at h
+  | ok p =>
+    obtain ⟨n, r⟩ := p
+    obtain ⟨b1, hU1, hb1, hl1, hv⟩ := U_ok fuel hf9 b n r hU
+    have hm := decodeStore_d_ok st (nb b) r n (sk_liftDec_of_ok _ _ hU)
+    obtain ⟨l1, l2⟩ := loop2_spec (BitVec.ofNat 64 n) n fuel b1 0#64 st 0#64 st 0
+      (ofNat64_toNat n hv) (by omega)
+    rw [hb1] at l1 l2
+    refine ⟨fun e h => ?_, fun st' rest h => ?_⟩
+    · rw [hm] at h
+      obtain ⟨he, s', b', hl⟩ := l1 e h
+      refine ⟨he, s', b', ?_⟩
+      simp only [DecodeAndMergeWith, beq21, beq22, if_true, hU1, Res.bind_ok, hnil, Bool.false_eq_true,
+        if_false, hl, Loop.elim_ret]
+    · rw [hm] at h
+      obtain ⟨s', index', i', hl, hc⟩ := l2 st' rest h
+      refine ⟨s', ?_, fun hw => hc rfl rfl ?_⟩
+      · simp only [DecodeAndMergeWith, beq21, beq22, if_true, hU1, Res.bind_ok, hnil, Bool.false_eq_true,
+          if_false, hl, Loop.elim_done]
+      · have : storeIndexes Consts.binEncodingIndexDeltas (nb b) = dTrace n 0 r := by
+          simp only [storeIndexes, if_neg Wire.subs_ne.1, if_true, hU]
+        unfold NoWrap at hw
+        rw [this] at hw
+        exact hw
+
+theorem layout3 (st : Store) (b : List (BitVec 8)) (fuel : Nat) (hf : b.length + 9 ≤ fuel) :
+    Agrees st Consts.binEncodingContiguousCounts b
+      (DecodeAndMergeWith fuel st b BinEncodingContiguousCounts) := by
+  have hf9 : 9 ≤ fuel := by omega
+  have hsub : Consts.binEncodingContiguousCounts = Wire.payloadSub (.contiguous 0 0 []) := rfl
+  cases hU : decUvarint64 (nb b) with
+  | error e1 =>
+    have hm := decodeStore_err1 st (.contiguous 0 0 []) (nb b) _ (sk_liftDec_of_error _ _ hU)
+    refine ⟨fun e h => ?_, fun st' rest h => ?_⟩
+    · rw [hsub, hm] at h
+      simp only [Option.some.injEq, Except.error.injEq] at h
+      refine ⟨h.symm, st, b, ?_⟩
+      simp only [DecodeAndMergeWith, beq31, beq32, beq33, Bool.false_eq_true, if_false, if_true,
+        U_err fuel hf9 b e1 hU, Res.bind_ok, heof]
+    · rw [hsub, hm] at h
+      simp at h
+  | ok p =>
+    obtain ⟨n, r⟩ := p
+    obtain ⟨b1, hU1, hb1, hl1, hv⟩ := U_ok fuel hf9 b n r hU
+    cases hS : decVarint64 r with
+    | error e2 =>
+      have hm := decodeStore_cc_err2 st (nb b) r n _ (sk_liftDec_of_ok _ _ hU) (sk_liftDec_of_error _ _ hS)
+      refine ⟨fun e h => ?_, fun st' rest h => ?_⟩
+      · rw [hm] at h
+        simp only [Option.some.injEq, Except.error.injEq] at h
+        refine ⟨h.symm, st, b1, ?_⟩
+        simp only [DecodeAndMergeWith, beq31, beq32, beq33, Bool.false_eq_true, if_false, if_true,
+          hU1, Res.bind_ok, hnil, V_err fuel hf9 b1 e2 (by rw [hb1]; exact hS), heof]
+      · rw [hm] at h
+        simp at h
+    | ok p2 =>
+      obtain ⟨start, r2⟩ := p2
+      obtain ⟨b2, hS1, hb2, hl2, _⟩ := V_ok fuel hf9 b1 start r2 (by rw [hb1]; exact hS)
+      cases hT : decVarint64 r2 with
+      | error e3 =>
+        have hm := decodeStore_cc_err3 st (nb b) r r2 n start _ (sk_liftDec_of_ok _ _ hU)
+          (sk_liftDec_of_ok _ _ hS) (sk_liftDec_of_error _ _ hT)
+        refine ⟨fun e h => ?_, fun st' rest h => ?_⟩
+        · rw [hm] at h
+          simp only [Option.some.injEq, Except.error.injEq] at h
+          refine ⟨h.symm, st, b2, ?_⟩
+          simp only [DecodeAndMergeWith, beq31, beq32, beq33, Bool.false_eq_true, if_false, if_true,
+            hU1, Res.bind_ok, hnil, hS1, V_err fuel hf9 b2 e3 (by rw [hb2]; exact hT), heof]
+        · rw [hm] at h
+          simp at h
+      | ok p3 =>
+        obtain ⟨stride, r3⟩ := p3
+        obtain ⟨b3, hT1, hb3, hl3, _⟩ := V_ok fuel hf9 b2 stride r3 (by rw [hb2]; exact hT)
+        have hm := decodeStore_cc_ok st (nb b) r r2 r3 n start stride (sk_liftDec_of_ok _ _ hU)
+          (sk_liftDec_of_ok _ _ hS) (sk_liftDec_of_ok _ _ hT)
+        obtain ⟨l1, l2⟩ := loop3_spec (BitVec.ofNat 64 n) (BitVec.ofInt 64 stride) stride n fuel b3 st
+          (BitVec.ofInt 64 start) 0#64 st start (ofNat64_toNat n hv) (by omega)
+        rw [hb3] at l1 l2
+        refine ⟨fun e h => ?_, fun st' rest h => ?_⟩
+        · rw [hm] at h
+          obtain ⟨he, s', b', hl⟩ := l1 e h
+          refine ⟨he, s', b', ?_⟩
+          simp only [DecodeAndMergeWith, beq31, beq32, beq33, if_true, hU1, Res.bind_ok, hnil,
+            Bool.false_eq_true, if_false, hS1, hT1, hl, Loop.elim_ret]
+        · rw [hm] at h
+          obtain ⟨s', index', i', hl, hc⟩ := l2 st' rest h
+          refine ⟨s', ?_, fun hw => hc rfl rfl rfl ?_⟩
+          · simp only [DecodeAndMergeWith, beq31, beq32, beq33, if_true, hU1, Res.bind_ok, hnil,
+              Bool.false_eq_true, if_false, hS1, hT1, hl, Loop.elim_done]
+          · have : storeIndexes Consts.binEncodingContiguousCounts (nb b) = ccTrace stride n start r3 := by
+              simp only [storeIndexes, if_neg Wire.subs_ne.2.1, if_neg Wire.subs_ne.2.2, if_true, hU, hS, hT]
+            unfold NoWrap at hw
+            rw [this] at hw
+            exact hw
+
+/-! ## 6. main theorems -/
+
+/-- the Go `SubFlag` of a model sub-flag number (`Wire.flagSub` of the flag byte, `< 64`) -/
+def subflag (sub : Nat) : SubFlag := newSubFlag (BitVec.ofNat 8 sub)
+
+theorem subflag_beq : ∀ sub, sub < 64 →
+    (subflag sub == BinEncodingIndexDeltasAndCounts) = decide (sub = Consts.binEncodingIndexDeltasAndCounts) ∧
+    (subflag sub == BinEncodingIndexDeltas) = decide (sub = Consts.binEncodingIndexDeltas) ∧
+    (subflag sub == BinEncodingContiguousCounts) = decide (sub = Consts.binEncodingContiguousCounts) := by
+  decide
+
+/-- `f.SubFlag()` of a decoded flag byte is `subflag (Wire.flagSub f)` -/
+theorem Flag_SubFlag_subflag (f : Flag) : f.SubFlag = subflag (Wire.flagSub f.byte.toNat) := by
+  have hlt : Wire.flagSub f.byte.toNat < 64 := by
+    unfold Wire.flagSub
+    rw [show Consts.numBitsForType = 2 from rfl]
+    have := f.byte.isLt
+    omega
+  unfold subflag
+  rw [Flag_SubFlag_eq f _ (by rw [BitVec.toNat_ofNat]; omega), BitVec.toNat_ofNat]
+  omega
+
+def KnownSub (sub : Nat) : Prop :=
+  sub = Consts.binEncodingIndexDeltasAndCounts ∨ sub = Consts.binEncodingIndexDeltas ∨
+    sub = Consts.binEncodingContiguousCounts
+
+/-- **A.** a defined layout: the generated decoder `Agrees` with the model (for every input, every store of
+    the model, fuel `len(b) + 9`) -/
+theorem DecodeAndMergeWith_agrees (st : Store) (sub : Nat) (hk : KnownSub sub) (b : List (BitVec 8))
+    (fuel : Nat) (hf : b.length + 9 ≤ fuel) :
+    Agrees st sub b (DecodeAndMergeWith fuel st b (subflag sub)) := by
+  rcases hk with rfl | rfl | rfl
+  · exact layout1 st b fuel hf
+  · exact layout2 st b fuel hf
+  · exact layout3 st b fuel hf
+
+/-- **B.** an undefined layout: both refuse, nothing is read, the store is untouched -/
+theorem DecodeAndMergeWith_unknown (st : Store) (sub : Nat) (hsub : sub < 64) (hk : ¬ KnownSub sub)
+    (b : List (BitVec 8)) (fuel : Nat) :
+    decodeStore st sub (nb b) = some (.error .unknownBinEncoding) ∧
+    DecodeAndMergeWith fuel st b (subflag sub) = .ok (st, b, GoErr.named "unknown bin encoding") := by
+  unfold KnownSub at hk
+  have h1 : sub ≠ Consts.binEncodingIndexDeltasAndCounts := fun h => hk (Or.inl h)
+  have h2 : sub ≠ Consts.binEncodingIndexDeltas := fun h => hk (Or.inr (Or.inl h))
+  have h3 : sub ≠ Consts.binEncodingContiguousCounts := fun h => hk (Or.inr (Or.inr h))
+  obtain ⟨e1, e2, e3⟩ := subflag_beq sub hsub
+  constructor
+  · rw [decodeStore_eq, if_neg h1, if_neg h2, if_neg h3]
+  · simp only [DecodeAndMergeWith, e1, e2, e3, h1, h2, h3, decide_false, Bool.false_eq_true, if_false]
+
+/-- **1. success.** If the model decodes `(st', rest)` and no index handed to the store leaves the int64
+    range, the generated code returns exactly the model's store, the remaining bytes, and a nil error. -/
+theorem DecodeAndMergeWith_ok (st st' : Store) (sub : Nat) (b : List (BitVec 8)) (rest : Bytes)
+    (fuel : Nat) (hf : b.length + 9 ≤ fuel) (hw : NoWrap sub (nb b))
+    (h : decodeStore st sub (nb b) = some (.ok (st', rest))) :
+    DecodeAndMergeWith fuel st b (subflag sub) = .ok (st', bn rest, GoErr.nil) := by
+  have hk : KnownSub sub := by
+    apply Classical.byContradiction
+    intro hk
+    unfold KnownSub at hk
+    rw [decodeStore_eq, if_neg (fun h => hk (Or.inl h)), if_neg (fun h => hk (Or.inr (Or.inl h))),
+      if_neg (fun h => hk (Or.inr (Or.inr h)))] at h
+    simp at h
+  obtain ⟨s', h1, h2⟩ := (DecodeAndMergeWith_agrees st sub hk b fuel hf).2 st' rest h
+  rw [h1, h2 hw]
+
+/-- **1'. success, without the no-wrap hypothesis**: still a success on exactly the same bytes (only the
+    store may differ, see `wrap_counterexample`) -/
+theorem DecodeAndMergeWith_ok_bytes (st st' : Store) (sub : Nat) (b : List (BitVec 8)) (rest : Bytes)
+    (fuel : Nat) (hf : b.length + 9 ≤ fuel)
+    (h : decodeStore st sub (nb b) = some (.ok (st', rest))) :
+    ∃ s', DecodeAndMergeWith fuel st b (subflag sub) = .ok (s', bn rest, GoErr.nil) := by
+  have hk : KnownSub sub := by
+    apply Classical.byContradiction
+    intro hk
+    unfold KnownSub at hk
+    rw [decodeStore_eq, if_neg (fun h => hk (Or.inl h)), if_neg (fun h => hk (Or.inr (Or.inl h))),
+      if_neg (fun h => hk (Or.inr (Or.inr h)))] at h
+    simp at h
+  obtain ⟨s', h1, _⟩ := (DecodeAndMergeWith_agrees st sub hk b fuel hf).2 st' rest h
+  exact ⟨s', h1⟩
+
+/-- **2. error.** If the model refuses, the generated code returns normally (never `.panic` / `.nofuel`)
+    with a non-nil error of the same class: `io.EOF` for truncated input, "unknown bin encoding"
+    (store and input untouched) for an undefined layout.  No hypothesis on the indexes. -/
+theorem DecodeAndMergeWith_error (st : Store) (sub : Nat) (hsub : sub < 64) (b : List (BitVec 8))
+    (e : SkErr) (fuel : Nat) (hf : b.length + 9 ≤ fuel)
+    (h : decodeStore st sub (nb b) = some (.error e)) :
+    (KnownSub sub ∧ e = .eof ∧ ∃ s' b', DecodeAndMergeWith fuel st b (subflag sub) = .ok (s', b', GoErr.eof)) ∨
+    (¬ KnownSub sub ∧ e = .unknownBinEncoding ∧
+      DecodeAndMergeWith fuel st b (subflag sub) = .ok (st, b, GoErr.named "unknown bin encoding")) := by
+  by_cases hk : KnownSub sub
+  · obtain ⟨he, hr⟩ := (DecodeAndMergeWith_agrees st sub hk b fuel hf).1 e h
+    exact Or.inl ⟨hk, he, hr⟩
+  · obtain ⟨h1, h2⟩ := DecodeAndMergeWith_unknown st sub hsub hk b fuel
+    rw [h1] at h
+    simp only [Option.some.injEq, Except.error.injEq] at h
+    exact Or.inr ⟨hk, h.symm, h2⟩
+
+/-- **2'.** in particular the error is not nil -/
+theorem DecodeAndMergeWith_error_ne_nil (st : Store) (sub : Nat) (hsub : sub < 64) (b : List (BitVec 8))
+    (e : SkErr) (fuel : Nat) (hf : b.length + 9 ≤ fuel)
+    (h : decodeStore st sub (nb b) = some (.error e)) :
+    ∃ s' b' err, DecodeAndMergeWith fuel st b (subflag sub) = .ok (s', b', err) ∧ err ≠ GoErr.nil := by
+  rcases DecodeAndMergeWith_error st sub hsub b e fuel hf h with ⟨_, _, s', b', hr⟩ | ⟨_, _, hr⟩
+  · exact ⟨s', b', _, hr, by decide⟩
+  · exact ⟨st, b, _, hr, by decide⟩
+
+/-- **1, on the model's bytes**: for a byte list of the model (all `< 256`) -/
+theorem DecodeAndMergeWith_ok_model (st st' : Store) (sub : Nat) (bs rest : Bytes)
+    (hb : ∀ x ∈ bs, x < 256) (fuel : Nat) (hf : bs.length + 9 ≤ fuel) (hw : NoWrap sub bs)
+    (h : decodeStore st sub bs = some (.ok (st', rest))) :
+    DecodeAndMergeWith fuel st (bn bs) (subflag sub) = .ok (st', bn rest, GoErr.nil) := by
+  have hnb := nb_bn bs hb
+  exact DecodeAndMergeWith_ok st st' sub (bn bs) rest fuel (by rw [bn_length]; exact hf)
+    (by rw [hnb]; exact hw) (by rw [hnb]; exact h)
+
+/-! ## 7. the documented difference: `int64` wrap-around of the running index
+
+  Input: layout "index deltas", 2 bins, two deltas of `2^62` (each the 9-byte varint `80 80 80 80 80 80 80 80 80`
+  of the zig-zag value `2^63`).  The model's indexes are `2^62, 2^63`; Go's `int64` index wraps to `-2^63`
+  at the second bin.  Both succeed and consume all 19 bytes; the stores differ. -/
+
+def wrapInput : List (BitVec 8) := 2#8 :: List.replicate 18 128#8
+
+def isSp (r : Option (Except SkErr (Store × Bytes))) (c : Content) : Bool :=
+  match r with
+  | some (.ok (.sp c', rest)) => c' == c && rest == []
+  | _ => false
+
+def isSpG (r : Res (Store × List (BitVec 8) × GoErr)) (c : Content) : Bool :=
+  match r with
+  | .ok (.sp c', rest, err) => c' == c && rest == [] && err == GoErr.nil
+  | _ => false
+
+theorem isSp_eq (r : Option (Except SkErr (Store × Bytes))) (c : Content) (h : isSp r c = true) :
+    r = some (.ok (.sp c, [])) := by
+  unfold isSp at h
+  split at h
+  · simp only [Bool.and_eq_true, beq_iff_eq] at h
+    rw [h.1, h.2]
+  · cases h
+
+theorem isSpG_eq (r : Res (Store × List (BitVec 8) × GoErr)) (c : Content) (h : isSpG r c = true) :
+    r = .ok (.sp c, [], GoErr.nil) := by
+  unfold isSpG at h
+  split at h
+  · simp only [Bool.and_eq_true, beq_iff_eq] at h
+    rw [h.1.1, h.1.2, h.2]
+  · cases h
+
+/-- **the wrap-around counterexample** (evaluated by the kernel): on `wrapInput` the model adds the bins
+    `2^62` and `2^63`, the generated Go code the bins `2^62` and `-2^63`; `NoWrap` fails, as it must. -/
+theorem wrap_counterexample :
+    decodeStore (Store.sp []) Consts.binEncodingIndexDeltas (nb wrapInput)
+      = some (.ok (Store.sp [(2 ^ 62, 1), (2 ^ 63, 1)], [])) ∧
+    DecodeAndMergeWith 28 (Store.sp []) wrapInput (subflag Consts.binEncodingIndexDeltas)
+      = .ok (Store.sp [(-2 ^ 63, 1), (2 ^ 62, 1)], [], GoErr.nil) ∧
+    storeIndexes Consts.binEncodingIndexDeltas (nb wrapInput) = [2 ^ 62, 2 ^ 63] ∧
+    ¬ NoWrap Consts.binEncodingIndexDeltas (nb wrapInput) := by
+  have htr : storeIndexes Consts.binEncodingIndexDeltas (nb wrapInput) = [2 ^ 62, 2 ^ 63] := by
+    decide +kernel
+  refine ⟨isSp_eq _ _ (by decide +kernel), isSpG_eq _ _ (by decide +kernel), htr, ?_⟩
+  intro hw
+  have := (hw (2 ^ 63) (by rw [htr]; simp)).2
+  omega
+
+/-- the two resulting stores are different stores (maximum index `2^63` — not even an `int` of Go — against
+    `2^62`) -/
+theorem wrap_counterexample_stores_differ :
+    (Store.sp [(2 ^ 62, 1), (2 ^ 63, 1)]).maxIndex? = some (2 ^ 63) ∧
+    (Store.sp [(-2 ^ 63, 1), (2 ^ 62, 1)]).maxIndex? = some (2 ^ 62) ∧
+    (Store.sp [(-2 ^ 63, 1), (2 ^ 62, 1)]).minIndex? = some (-2 ^ 63) := by
+  refine ⟨rfl, rfl, rfl⟩
+
+/-! ### an observation on the error path (no disagreement: the model's error carries no store)
+
+  When the input ends inside a payload, the bins read before the cut HAVE ALREADY been merged into the Go
+  store (a pointer receiver): the `s'` of `DecodeAndMergeWith_error` is in general not the store the call
+  started with.  Example: 2 bins announced, one delta `5` present. -/
+
+theorem eof_after_partial_merge_example :
+    decodeStore (Store.sp []) Consts.binEncodingIndexDeltas (nb [2#8, 10#8]) = some (.error .eof) ∧
+    DecodeAndMergeWith 11 (Store.sp []) [2#8, 10#8] (subflag Consts.binEncodingIndexDeltas)
+      = .ok (Store.sp [(5, 1)], [], GoErr.eof) := by
+  constructor
+  · have h : (match decodeStore (Store.sp []) Consts.binEncodingIndexDeltas (nb [2#8, 10#8]) with
+        | some (.error e) => e == SkErr.eof
+        | _ => false) = true := by decide +kernel
+    split at h
+    · rename_i e he
+      rw [he, beq_iff_eq.mp h]
+    · cases h
+  · have h : (match DecodeAndMergeWith 11 (Store.sp []) [2#8, 10#8] (subflag Consts.binEncodingIndexDeltas) with
+        | .ok (.sp c', rest, err) => c' == [(5, 1)] && rest == [] && err == GoErr.eof
+        | _ => false) = true := by decide +kernel
+    split at h
+    · rename_i c' rest err he
+      simp only [Bool.and_eq_true, beq_iff_eq] at h
+      rw [he, h.1.1, h.1.2, h.2]
+    · cases h
+
+/-! ## 8. totality, for every implementation of the store interface
+
+  Independently of the model (so also where the model says `none`): with fuel `len(b) + 9` the generated
+  decoder returns normally on every input — also when `numBins` is far larger than the input (up to
+  `2^64 − 1`): every item consumes at least one byte, so the loop ends by `io.EOF` after at most
+  `len(b) + 1` iterations. -/
+
+section total
+variable {S : Type} [StoreI S]
+
+theorem loop1_total (numBins : BitVec 64) : ∀ (fuel : Nat) (b : List (BitVec 8)) (index : BitVec 64)
+    (s : S) (i : BitVec 64), b.length + 10 ≤ fuel →
+    (∃ s' b', DecodeAndMergeWith.loop1 numBins fuel b index s i = .ret (s', b', GoErr.eof)) ∨
+    (∃ b' index' s' i', DecodeAndMergeWith.loop1 numBins fuel b index s i = .done (b', index', s', i')) := by
+  intro fuel
+  induction fuel with
+  | zero => intro b index s i hf; omega
+  | succ fuel ih =>
+    intro b index s i hf
+    have hf9 : 9 ≤ fuel := by omega
+    cases hu : BitVec.ult i numBins with
+    | false =>
+      exact Or.inr ⟨b, index, s, i, by simp only [DecodeAndMergeWith.loop1, hu, Bool.false_eq_true, if_false]⟩
+    | true =>
+      cases hV : decVarint64 (nb b) with
+      | error e1 =>
+        exact Or.inl ⟨s, b, by
+          simp only [DecodeAndMergeWith.loop1, hu, if_true, V_err fuel hf9 b e1 hV, Res.bindL_ok, heof]⟩
+      | ok p1 =>
+        obtain ⟨d, r1⟩ := p1
+        obtain ⟨b1, hV1, hb1, hl1, _⟩ := V_ok fuel hf9 b d r1 hV
+        cases hF : decVarfloat64 (nb b1) with
+        | error e2 =>
+          exact Or.inl ⟨s, b1, by
+            simp only [DecodeAndMergeWith.loop1, hu, if_true, hV1, Res.bindL_ok, hnil, Bool.false_eq_true,
+              if_false, F_err fuel hf9 b1 e2 hF, heof]⟩
+        | ok p2 =>
+          obtain ⟨c, r2⟩ := p2
+          obtain ⟨b2, hF1, hb2, hl2⟩ := F_ok fuel hf9 b1 c r2 hF
+          have hl : DecodeAndMergeWith.loop1 numBins (fuel + 1) b index s i
+              = DecodeAndMergeWith.loop1 numBins fuel b2 (index + BitVec.ofInt 64 d)
+                  (StoreI.AddWithCount s (BitVec.toInt (index + BitVec.ofInt 64 d)) c) (i + 1#64) := by
+            simp only [DecodeAndMergeWith.loop1, hu, if_true, hV1, Res.bindL_ok, hnil, Bool.false_eq_true,
+              if_false, hF1]
+          rw [hl]
+          exact ih b2 _ _ _ (by omega)
+
+theorem loop2_total (numBins : BitVec 64) : ∀ (fuel : Nat) (b : List (BitVec 8)) (index : BitVec 64)
+    (s : S) (i : BitVec 64), b.length + 10 ≤ fuel →
+    (∃ s' b', DecodeAndMergeWith.loop2 numBins fuel b index s i = .ret (s', b', GoErr.eof)) ∨
+    (∃ b' index' s' i', DecodeAndMergeWith.loop2 numBins fuel b index s i = .done (b', index', s', i')) := by
+  intro fuel
+  induction fuel with
+  | zero => intro b index s i hf; omega
+  | succ fuel ih =>
+    intro b index s i hf
+    have hf9 : 9 ≤ fuel := by omega
+    cases hu : BitVec.ult i numBins with
+    | false =>
+      exact Or.inr ⟨b, index, s, i, by simp only [DecodeAndMergeWith.loop2, hu, Bool.false_eq_true, if_false]⟩
+    | true =>
+      cases hV : decVarint64 (nb b) with
+      | error e1 =>
+        exact Or.inl ⟨s, b, by
+          simp only [DecodeAndMergeWith.loop2, hu, if_true, V_err fuel hf9 b e1 hV, Res.bindL_ok, heof]⟩
+      | ok p1 =>
+        obtain ⟨d, r1⟩ := p1
+        obtain ⟨b1, hV1, hb1, hl1, _⟩ := V_ok fuel hf9 b d r1 hV
+        have hl : DecodeAndMergeWith.loop2 numBins (fuel + 1) b index s i
+            = DecodeAndMergeWith.loop2 numBins fuel b1 (index + BitVec.ofInt 64 d)
+                (StoreI.Add s (BitVec.toInt (index + BitVec.ofInt 64 d))) (i + 1#64) := by
+          simp only [DecodeAndMergeWith.loop2, hu, if_true, hV1, Res.bindL_ok, hnil, Bool.false_eq_true,
+            if_false]
+        rw [hl]
+        exact ih b1 _ _ _ (by omega)
+
+theorem loop3_total (numBins indexDelta : BitVec 64) : ∀ (fuel : Nat) (b : List (BitVec 8)) (s : S)
+    (index : BitVec 64) (i : BitVec 64), b.length + 10 ≤ fuel →
+    (∃ s' b', DecodeAndMergeWith.loop3 numBins indexDelta fuel b s index i = .ret (s', b', GoErr.eof)) ∨
+    (∃ b' s' index' i',
+      DecodeAndMergeWith.loop3 numBins indexDelta fuel b s index i = .done (b', s', index', i')) := by
+  intro fuel
+  induction fuel with
+  | zero => intro b s index i hf; omega
+  | succ fuel ih =>
+    intro b s index i hf
+    have hf9 : 9 ≤ fuel := by omega
+    cases hu : BitVec.ult i numBins with
+    | false =>
+      exact Or.inr ⟨b, s, index, i, by simp only [DecodeAndMergeWith.loop3, hu, Bool.false_eq_true, if_false]⟩
+    | true =>
+      cases hF : decVarfloat64 (nb b) with
+      | error e1 =>
+        exact Or.inl ⟨s, b, by
+          simp only [DecodeAndMergeWith.loop3, hu, if_true, F_err fuel hf9 b e1 hF, Res.bindL_ok, heof]⟩
+      | ok p1 =>
+        obtain ⟨c, r1⟩ := p1
+        obtain ⟨b1, hF1, hb1, hl1⟩ := F_ok fuel hf9 b c r1 hF
+        have hl : DecodeAndMergeWith.loop3 numBins indexDelta (fuel + 1) b s index i
+            = DecodeAndMergeWith.loop3 numBins indexDelta fuel b1
+                (StoreI.AddWithCount s (BitVec.toInt index) c) (index + indexDelta) (i + 1#64) := by
+          simp only [DecodeAndMergeWith.loop3, hu, if_true, hF1, Res.bindL_ok, hnil, Bool.false_eq_true,
+            if_false]
+        rw [hl]
+        exact ih b1 _ _ _ (by omega)
+
+/-- **3. totality**: for every store implementation, every input, every sub-flag: the generated decoder
+    returns normally with fuel `len(b) + 9`, and its error is nil, `io.EOF` or "unknown bin encoding". -/
+theorem DecodeAndMergeWith_total (s : S) (b : List (BitVec 8)) (sf : SubFlag) (fuel : Nat)
+    (hf : b.length + 9 ≤ fuel) :
+    ∃ s' b' err, DecodeAndMergeWith fuel s b sf = .ok (s', b', err) ∧
+      (err = GoErr.nil ∨ err = GoErr.eof ∨ err = GoErr.named "unknown bin encoding") := by
+  have hf9 : 9 ≤ fuel := by omega
+  cases h1 : (sf == BinEncodingIndexDeltasAndCounts) with
+  | true =>
+    cases hU : decUvarint64 (nb b) with
+    | error e1 =>
+      exact ⟨s, b, GoErr.eof, by
+        simp only [DecodeAndMergeWith, h1, if_true, U_err fuel hf9 b e1 hU, Res.bind_ok, heof],
+        Or.inr (Or.inl rfl)⟩
+    | ok p =>
+      obtain ⟨n, r⟩ := p
+      obtain ⟨b1, hU1, hb1, hl1, hv⟩ := U_ok fuel hf9 b n r hU
+      rcases loop1_total (BitVec.ofNat 64 n) fuel b1 0#64 s 0#64 (by omega) with
+        ⟨s', b', hl⟩ | ⟨b', index', s', i', hl⟩
+      · exact ⟨s', b', GoErr.eof, by
+          simp only [DecodeAndMergeWith, h1, if_true, hU1, Res.bind_ok, hnil, Bool.false_eq_true, if_false,
+            hl, Loop.elim_ret], Or.inr (Or.inl rfl)⟩
+      · exact ⟨s', b', GoErr.nil, by
+          simp only [DecodeAndMergeWith, h1, if_true, hU1, Res.bind_ok, hnil, Bool.false_eq_true, if_false,
+            hl, Loop.elim_done], Or.inl rfl⟩
+  | false =>
+    cases h2 : (sf == BinEncodingIndexDeltas) with
+    | true =>
+      cases hU : decUvarint64 (nb b) with
+      | error e1 =>
+        exact ⟨s, b, GoErr.eof, by
+          simp only [DecodeAndMergeWith, h1, h2, Bool.false_eq_true, if_false, if_true,
+            U_err fuel hf9 b e1 hU, Res.bind_ok, heof], Or.inr (Or.inl rfl)⟩
+      | ok p =>
+        obtain ⟨n, r⟩ := p
+        obtain ⟨b1, hU1, hb1, hl1, hv⟩ := U_ok fuel hf9 b n r hU
+        rcases loop2_total (BitVec.ofNat 64 n) fuel b1 0#64 s 0#64 (by omega) with
+          ⟨s', b', hl⟩ | ⟨b', index', s', i', hl⟩
+        · exact ⟨s', b', GoErr.eof, by
+            simp only [DecodeAndMergeWith, h1, h2, if_true, hU1, Res.bind_ok, hnil, Bool.false_eq_true,
+              if_false, hl, Loop.elim_ret], Or.inr (Or.inl rfl)⟩
+        · exact ⟨s', b', GoErr.nil, by
+            simp only [DecodeAndMergeWith, h1, h2, if_true, hU1, Res.bind_ok, hnil, Bool.false_eq_true,
+              if_false, hl, Loop.elim_done], Or.inl rfl⟩
+    | false =>
+      cases h3 : (sf == BinEncodingContiguousCounts) with
+      | false =>
+        exact ⟨s, b, _, by
+          simp only [DecodeAndMergeWith, h1, h2, h3, Bool.false_eq_true, if_false], Or.inr (Or.inr rfl)⟩
+      | true =>
+        cases hU : decUvarint64 (nb b) with
+        | error e1 =>
+          exact ⟨s, b, GoErr.eof, by
+            simp only [DecodeAndMergeWith, h1, h2, h3, Bool.false_eq_true, if_false, if_true,
+              U_err fuel hf9 b e1 hU, Res.bind_ok, heof], Or.inr (Or.inl rfl)⟩
+        | ok p =>
+          obtain ⟨n, r⟩ := p
+          obtain ⟨b1, hU1, hb1, hl1, hv⟩ := U_ok fuel hf9 b n r hU
+          cases hS : decVarint64 (nb b1) with
+          | error e2 =>
+            exact ⟨s, b1, GoErr.eof, by
+              simp only [DecodeAndMergeWith, h1, h2, h3, Bool.false_eq_true, if_false, if_true,
+                hU1, Res.bind_ok, hnil, V_err fuel hf9 b1 e2 hS, heof], Or.inr (Or.inl rfl)⟩
+          | ok p2 =>
+            obtain ⟨start, r2⟩ := p2
+            obtain ⟨b2, hS1, hb2, hl2, _⟩ := V_ok fuel hf9 b1 start r2 hS
+            cases hT : decVarint64 (nb b2) with
+            | error e3 =>
+              exact ⟨s, b2, GoErr.eof, by
+                simp only [DecodeAndMergeWith, h1, h2, h3, Bool.false_eq_true, if_false, if_true,
+                  hU1, Res.bind_ok, hnil, hS1, V_err fuel hf9 b2 e3 hT, heof], Or.inr (Or.inl rfl)⟩
+            | ok p3 =>
+              obtain ⟨stride, r3⟩ := p3
+              obtain ⟨b3, hT1, hb3, hl3, _⟩ := V_ok fuel hf9 b2 stride r3 hT
+              rcases loop3_total (BitVec.ofNat 64 n) (BitVec.ofInt 64 stride) fuel b3 s
+                  (BitVec.ofInt 64 start) 0#64 (by omega) with
+                ⟨s', b', hl⟩ | ⟨b', s', index', i', hl⟩
+              · exact ⟨s', b', GoErr.eof, by
+                  simp only [DecodeAndMergeWith, h1, h2, h3, if_true, hU1, Res.bind_ok, hnil,
+                    Bool.false_eq_true, if_false, hS1, hT1, hl, Loop.elim_ret], Or.inr (Or.inl rfl)⟩
+              · exact ⟨s', b', GoErr.nil, by
+                  simp only [DecodeAndMergeWith, h1, h2, h3, if_true, hU1, Res.bind_ok, hnil,
+                    Bool.false_eq_true, if_false, hS1, hT1, hl, Loop.elim_done], Or.inl rfl⟩
+
+end total
 
 end DDS.GenStoreDecode
